@@ -78,7 +78,8 @@ def run(mid, tier="quick", props=None):
     checkout (VERIF_REPO); /repo itself is not touched.  `--in-repo` applies it to /repo instead."""
     d = os.path.join(SEEDED, mid)
     meta = json.load(open(os.path.join(d, "meta.json")))
-    props = props or [meta["property"]]
+    # a change written for one property may in fact break (only) another one: meta "run_against" says which checks decide it
+    props = props or meta.get("run_against") or [meta["property"]]
     wt = "/tmp/wt-seed-%s-%d" % (mid, os.getpid())
     sh(["git", "-C", "/repo", "worktree", "add", "--detach", wt, "HEAD"])
     res = {}
